@@ -204,3 +204,23 @@ package alert
 //@   atlock modifies map(s.topics)
 //@   ensures [registered-topic-never-replaced] atlock(has(s.topics, event.Topic) && s.topics[event.Topic] != nil) ==> s.topics[event.Topic] == atlock(s.topics[event.Topic])
 //@   ensures [event-goes-to-registered-topic] called(collect) && has(s.topics, event.Topic) && callrecv(collect) == s.topics[event.Topic]
+
+// ---------------------------------------------------------------- topics.go: restore (C08)
+// "every alert ID resumes at the level that was recorded for it": after a restore the topic holds
+// exactly the restored states -- by id, and in the level-ordered list the topic's level and its
+// event listing are computed from. In particular nothing of what the topic held before (an
+// earlier restore of the same in-memory topic) survives in the list.
+//@ func (*Topic).restoreEventStatesNoCopy
+//@   props C08 C09
+//@   requires t != nil && eventStates != nil
+//@   requires forall k string :: has(eventStates, k) ==> eventStates[k] != nil
+//@   ensures [restored-by-id] forall k string :: has(eventStates, k) ==> has(t.events, k) && t.events[k] == eventStates[k]
+//@   ensures [nothing-else-by-id] forall k string :: has(t.events, k) ==> has(eventStates, k)
+//@   ensures [list-holds-only-restored] forall i int :: 0 <= i && i < len(t.sorted) ==> t.sorted[i] != nil && exists k string :: has(eventStates, k) && eventStates[k] == t.sorted[i]
+//@   ensures sortedOK(t.sorted)
+//@   loop 1
+//@     invariant t != nil && t.events != nil && fresh(t.events) && (samearray(t.sorted, before(t.sorted)) || newinloop(t.sorted))
+//@     invariant forall k string :: has(eventStates, k) == before(has(eventStates, k)) && eventStates[k] == before(eventStates[k]) && (has(eventStates, k) ==> eventStates[k] != nil)
+//@     invariant forall k string :: has(t.events, k) == seen(k)
+//@     invariant forall k string :: seen(k) ==> has(eventStates, k) && t.events[k] == eventStates[k]
+//@     invariant forall i int :: 0 <= i && i < len(t.sorted) ==> t.sorted[i] != nil && exists k string :: has(eventStates, k) && eventStates[k] == t.sorted[i]
